@@ -959,7 +959,7 @@ def host_bias_qlinear_conv(g):
     x_scale = c(np.float32(g.pick([1.0, 0.5, 0.25])))
     x_zp = c(np.asarray(g.pick([0, 1, 2]), dtype=xdt))
     w = _weight(g, wdt, (M, C // group, *ks), how=g.pick(["node", "init", "init", "ovinit"]), tag=tag)
-    if g.chance(3):
+    if g.chance(3) and (nd == 2 or g.chance(1)):  # onnx.reference handles per-channel scales only for 2-D convs
         w_scale = c(np.asarray([g.pick([1.0, 0.5, 2.0]) for _ in range(M)], dtype=np.float32))
         w_zp = c(np.zeros((M,), dtype=wdt))
         g.features.add(f"planted:{tag}:per_channel")
@@ -970,4 +970,24 @@ def host_bias_qlinear_conv(g):
     y_zp = c(np.asarray(g.pick([0, 1, 3]), dtype=xdt))
     ins = [x, x_scale, x_zp, w, w_scale, w_zp, y_scale, y_zp] + _zero_bias(g, I32, M, tag)
     y = g.emit("QLinearConv", ins, **attrs)
+    if not y:
+        return None
+    # onnx.reference's QLinearConv is wrong for per-channel scales outside 2-D and inherits the Conv auto_pad defects:
+    # validate the sample with an independent computation
+    try:
+        nd_ = x.arr.ndim - 2
+        wz = w_zp.arr.astype(np.int64).reshape((-1,) + (1,) * (nd_ + 1)) if w_zp.arr.ndim else np.int64(w_zp.arr)
+        b = ins[8].arr if len(ins) > 8 and ins[8] is not None else None
+        acc = _expected_conv(x.arr.astype(np.int64) - np.int64(x_zp.arr), w.arr.astype(np.int64) - wz, b, attrs)
+        ws = w_scale.arr.astype(np.float64).reshape((1, -1) + (1,) * nd_) if w_scale.arr.ndim else float(w_scale.arr)
+        v = acc * (float(x_scale.arr) * ws / float(y_scale.arr))
+        info = np.iinfo(xdt)
+        # exact .5 ties are rounded differently by the runtimes: accept either direction
+        lo = np.clip(np.ceil(v - 0.5) + float(y_zp.arr), info.min, info.max)
+        hi = np.clip(np.floor(v + 0.5) + float(y_zp.arr), info.min, info.max)
+        got = y[0].arr.astype(np.float64)
+    except Exception:  # noqa: BLE001
+        return None
+    if v.shape != y[0].shape or not np.all((got >= lo) & (got <= hi)):
+        return None
     return _finish(g, y, tag)
